@@ -452,7 +452,9 @@ func (mr MeshReader) Read(reader io.Reader) (*modeling.Mesh, error) {
 		// Read data
 		scanner := bufio.NewScanner(reader)
 		for i := int64(0); i < vertexElement.Count; i++ {
-			scanner.Scan()
+			if !scanner.Scan() {
+				return nil, asciiBodyEnded(scanner, mr.AttributeElement, i, vertexElement.Count)
+			}
 
 			text := scanner.Text()
 			if text == "" {
@@ -554,6 +556,15 @@ func (mr MeshReader) Read(reader io.Reader) (*modeling.Mesh, error) {
 	return &mesh, nil
 }
 
+// The input ended (or failed) while the header promised more lines
+func asciiBodyEnded(scanner *bufio.Scanner, element string, read, expected int64) error {
+	err := scanner.Err()
+	if err == nil {
+		err = io.ErrUnexpectedEOF
+	}
+	return fmt.Errorf("can't read %q element: read %d of %d entries: %w", element, read, expected, err)
+}
+
 func readAsciiFaceElement(element Element, scanner *bufio.Scanner) ([]int, []vector2.Float64, error) {
 	indicesProp := -1
 	texCordProp := -1
@@ -592,7 +603,9 @@ func readAsciiFaceElement(element Element, scanner *bufio.Scanner) ([]int, []vec
 
 	var i int
 	for i < int(element.Count) {
-		scanner.Scan()
+		if !scanner.Scan() {
+			return nil, nil, asciiBodyEnded(scanner, element.Name, int64(i), element.Count)
+		}
 		line := scanner.Text()
 
 		if line == "" {
